@@ -1,8 +1,17 @@
 import Abyss.Props.C07
 import Abyss.Props.C03
+import Abyss.Props.RaBufP
 #print axioms Abyss.C07_bucket_independent
 #print axioms Abyss.C07_bucketsOf
 #print axioms Abyss.nextPowerOfTwo_spec
 #print axioms Abyss.C07_htxInitLen
 #print axioms Abyss.Buf.read_after_write
 #print axioms Abyss.Buf.C16_memory_intact
+#print axioms Abyss.RaBuf.C07_buffer_transparent
+#print axioms Abyss.RaBuf.run_refines_flat
+#print axioms Abyss.RaBuf.C07_repo_configs
+#print axioms Abyss.RaBuf.C07_permille_hang
+#print axioms Abyss.RaBuf.C07_capacity_one_hang
+#print axioms Abyss.RaBuf.fetch_returns
+#print axioms Abyss.RaBuf.writeAll_spec
+#print axioms Abyss.RaBuf.readExact_spec
